@@ -59,8 +59,13 @@ fn v_circuit_size_padding() -> (r: usize) ensures r == 6 { Self::CIRCUIT_SIZE_PA
     f.before_tail("""proof {
     if available != 0 {
         let k: u32 = (usize::BITS - 1 - spec_usize_lz(available)) as u32;
-        lemma_pow2_floor_bracket(available as int, k as nat);
-        lemma_usize_shl_one(k);
+        // guarded by the facts `leading_zeros`' contract provides at its call: a body that no longer calls it leaves the
+        // hint vacuous and is judged by the postcondition alone (a failing postcondition, not a broken hint)
+        if spec_usize_lz(available) < usize::BITS && vstd::arithmetic::power2::pow2(k as nat) <= available
+            && (available as int) < 2 * vstd::arithmetic::power2::pow2(k as nat) {
+            lemma_pow2_floor_bracket(available as int, k as nat);
+            lemma_usize_shl_one(k);
+        }
     }
 }""")
 
